@@ -301,6 +301,7 @@ def run(ctx):
     S.run(dr, pe)
     if dr.nproto < 2:
         raise Broken("C02.R8: protocol-error exits of process_ssl_event not found (%d)" % dr.nproto)
+    check_store_queue_clean(P, r8)
 
     # ------------------------------------------------------------------ R9
     r9 = ctx.rule("C02.R9", "a graceful close stays graceful: a TLS server sends nothing after the handshake that a send-only peer never reads (session tickets off)")
@@ -335,3 +336,70 @@ def check_no_unread_records(P, rule):
         rule.violation("%s:session-tickets" % f.name, "the TLS contexts are created without SSL_CTX_set_num_tickets(ctx, 0): a TLS 1.3 server sends session tickets after the "
                        "handshake (XCM never resumes sessions: the session cache is off); a client that only sends never reads them, its xcm_close() therefore "
                        "resets the connection, and the server loses bytes/messages it had not read yet although the sender flushed and closed gracefully", loc=f.file)
+
+
+def check_store_queue_clean(P, rule):
+    """the credential loaders read PEM objects until a read fails; that failing read leaves PEM_R_NO_START_LINE on the
+    thread's OpenSSL error queue.  Every exit of a loader has drained the queue after its last failed read, or the
+    next would-block SSL_read/SSL_write of ANY connection of the thread is taken for a protocol error."""
+    n = 0
+    for f in P.fns_in("tls/ctx_store.c"):
+        if not any((f.nodes[c].get("callee") or "").startswith("PEM_read") for c in f.calls()):
+            continue
+        n += 1
+        rule.instance(f.qname)
+        dirty_exits = []
+
+        def from_read(fn, st, x):
+            m = fn.sn(x)
+            if m["k"] == "call" and (m.get("callee") or "").startswith("PEM_read"):
+                return True
+            if m["k"] == "bin" and m["op"] == "=":
+                return from_read(fn, st, m["r"])
+            if m["k"] == "ref" and m.get("dk") == "local":
+                o = fn.nodes[fn.origin(x)]
+                if o["k"] == "call" and (o.get("callee") or "").startswith("PEM_read"):
+                    return True
+                # assigned in a loop condition or re-assigned: any assignment from a PEM read
+                for mm in fn.nodes.values():
+                    if mm["k"] == "bin" and mm["op"] == "=" and fn.sn(mm["l"]).get("did") == m.get("did") and fn.sn(mm["l"])["k"] == "ref":
+                        r = fn.sn(mm["r"])
+                        if r["k"] == "call" and (r.get("callee") or "").startswith("PEM_read"):
+                            return True
+            return False
+
+        class Q(S.SeqRule):
+            max_depth = 3
+
+            def user0(s2, fn):
+                return False
+
+            def inline(s2, fn, nid, callee):
+                return callee.file.endswith("log_tls.c")
+
+            def on_branch(s2, fn, st, blk, cond, label):
+                if label not in ("T", "F"):
+                    return None
+                l, op, r = C.cond_atom(fn, cond, label == "T")
+                isnull = isinstance(r, tuple) and r[1] == 0 or (not isinstance(r, tuple) and C.const_of(fn, r) == 0)
+                if isnull and from_read(fn, st, l):
+                    return True if op == "==" else st.user
+                return None
+
+            def on_call(s2, fn, st, nid, callees, exts):
+                if (fn.nodes[nid].get("callee") or "") in ("ERR_clear_error", "ERR_get_error"):
+                    return False
+                return None
+
+            def on_exit(s2, fn, st, ret_nid, ret_cls, top):
+                if top and st.user:
+                    dirty_exits.append(ret_nid)
+        S.run(Q(P), f)
+        if dirty_exits:
+            rule.violation("%s:error-queue-left" % f.name, "%s can return with the failed PEM read's error still on the thread's OpenSSL error queue: the next would-block "
+                           "SSL_read/SSL_write on any other connection of this thread is classified SSL_ERROR_SSL and that healthy stream is torn down" % f.name,
+                           loc=f.loc(dirty_exits[0]) if dirty_exits[0] else f.file)
+        else:
+            rule.ok("%s drains the error queue after the read that ends its loop" % f.qname, "path exploration")
+    if n < 3:
+        raise Broken("store-queue-clean: only %d PEM loaders found" % n)
